@@ -586,6 +586,58 @@ func TestCheck(t *testing.T) {
 				}
 			}
 			c.SetExhaustive("kanji_mode_all_code_points", true)
+
+			// ... and every double-byte Shift_JIS character OUTSIDE those ranges (lead bytes 0xEB-0xFC:
+			// NEC / IBM extension rows), as all-double-byte text: Kanji mode cannot carry them, the
+			// writer has to fall back to byte mode with the Shift_JIS designator
+			var ext []rune
+			seen := map[rune]bool{}
+			for _, r := range ks {
+				seen[r] = true
+			}
+			dec := japanese.ShiftJIS.NewDecoder()
+			for lead := 0x81; lead <= 0xFC; lead++ {
+				for trail := 0x40; trail <= 0xFC; trail++ {
+					v := lead<<8 | trail
+					if (v >= 0x8140 && v <= 0x9FFC) || (v >= 0xE040 && v <= 0xEBBF) {
+						continue
+					}
+					out, err := dec.Bytes([]byte{byte(lead), byte(trail)})
+					if err != nil {
+						continue
+					}
+					rs := []rune(string(out))
+					if len(rs) != 1 || rs[0] == 0xFFFD || seen[rs[0]] {
+						continue
+					}
+					if b, err := qrx.SJIS(string(rs[0])); err != nil || len(b) != 2 {
+						continue
+					}
+					seen[rs[0]] = true
+					ext = append(ext, rs[0])
+				}
+			}
+			c.Class("shift_jis_double_byte_outside_kanji_mode", "code_points", int64(len(ext)))
+			for off := 0; off < len(ext); off += 12 {
+				ci++
+				if !c.Mine(ci) {
+					continue
+				}
+				end := off + 12
+				if end > len(ext) {
+					end = len(ext)
+				}
+				cs := RTCase{Charset: "Shift_JIS", Name: []string{"Shift_JIS", "SJIS"}[ci%2], Text: string(ext[off:end])}
+				if ci%3 == 0 {
+					// mixed with Kanji-mode characters: still not Kanji mode
+					cs.Text = string(ks[(off*7)%len(ks)]) + cs.Text + string(ks[(off*13)%len(ks)])
+				}
+				c.Note("shift_jis_double_byte_outside_kanji_mode", "", true, hx.HashS("sjisext", cs.Text), func() any { return cs })
+				if !c.Enum("shift_jis_double_byte_outside_kanji_mode", "roundtrip", cs, nil) {
+					break
+				}
+			}
+			c.SetExhaustive("shift_jis_double_byte_outside_kanji_mode", true)
 		}
 
 		// (b) no hint: valid UTF-8 decodes as itself (adversarial for the guesser)
